@@ -659,18 +659,18 @@ Proof.
 Qed.
 
 (** the language test: the last at-sign against the last double quote *)
-Definition AT : ascii := ascii_of_nat 64.
+Definition ATSIGN : ascii := ascii_of_nat 64.
 
-Lemma lang_marker_is_AT : c_lang_marker = [AT].
+Lemma lang_marker_is_AT : c_lang_marker = [ATSIGN].
 Proof. reflexivity. Qed.
 
 Lemma arroba_false pre post :
-  ~ In Q post -> ~ In AT post -> there_is_arroba_after_last_quotes (pre ++ Q :: post) = false.
+  ~ In Q post -> ~ In ATSIGN post -> there_is_arroba_after_last_quotes (pre ++ Q :: post) = false.
 Proof.
   intros HQ HA. unfold there_is_arroba_after_last_quotes. rewrite lang_marker_is_AT.
   change (Str """") with [Q]. rewrite (rfind_last Q pre post HQ).
-  destruct (in_dec ascii_dec AT pre) as [Hin|Hnin].
-  - destruct (last_occurrence AT pre Hin) as (a & b & -> & Hb).
+  destruct (in_dec ascii_dec ATSIGN pre) as [Hin|Hnin].
+  - destruct (last_occurrence ATSIGN pre Hin) as (a & b & -> & Hb).
     rewrite <- app_assoc. cbn [app].
     rewrite rfind_last.
     + rewrite Z.gtb_ltb. apply Z.ltb_ge. rewrite app_length. cbn [List.length]. lia.
@@ -681,13 +681,13 @@ Proof.
 Qed.
 
 Lemma arroba_true pre tag :
-  ~ In Q tag -> there_is_arroba_after_last_quotes (pre ++ Q :: AT :: tag) = true.
+  ~ In Q tag -> there_is_arroba_after_last_quotes (pre ++ Q :: ATSIGN :: tag) = true.
 Proof.
   intros HQ. unfold there_is_arroba_after_last_quotes. rewrite lang_marker_is_AT.
   change (Str """") with [Q].
-  rewrite (rfind_last Q pre (AT :: tag)) by (intros [H|H]; [discriminate H | auto]).
-  destruct (last_occurrence AT (AT :: tag) (or_introl eq_refl)) as (a & b & E & Hb).
-  replace (pre ++ Q :: AT :: tag) with ((pre ++ Q :: a) ++ AT :: b) by (rewrite <- app_assoc; cbn [app]; rewrite <- E; reflexivity).
+  rewrite (rfind_last Q pre (ATSIGN :: tag)) by (intros [H|H]; [discriminate H | auto]).
+  destruct (last_occurrence ATSIGN (ATSIGN :: tag) (or_introl eq_refl)) as (a & b & E & Hb).
+  replace (pre ++ Q :: ATSIGN :: tag) with ((pre ++ Q :: a) ++ ATSIGN :: b) by (rewrite <- app_assoc; cbn [app]; rewrite <- E; reflexivity).
   rewrite rfind_last by exact Hb. rewrite app_length. cbn [List.length].
   apply Z.gtb_lt. lia.
 Qed.
@@ -861,9 +861,9 @@ Section TokenLemmas.
     parse_literal (Q :: lex ++ Q :: Str "@" ++ tag) = inl (MLit lex rdf_langString).
   Proof.
     intros H Ht. pose proof (not_in_Q_of lex H) as HQ. unfold parse_literal, decide_literal_type.
-    change (Q :: lex ++ Q :: Str "@" ++ tag) with ((Q :: lex) ++ Q :: AT :: tag) at 1.
+    change (Q :: lex ++ Q :: Str "@" ++ tag) with ((Q :: lex) ++ Q :: ATSIGN :: tag) at 1.
     rewrite arroba_true by (apply no_char_not_in; exact Ht).
-    change (Str "@" ++ tag) with (AT :: tag). rewrite (content_of lex (AT :: tag) HQ). reflexivity.
+    change (Str "@" ++ tag) with (ATSIGN :: tag). rewrite (content_of lex (ATSIGN :: tag) HQ). reflexivity.
   Qed.
 
   Lemma typed_token_shape lex dt :
@@ -985,10 +985,10 @@ Proof.
   - exists Q. change (Q :: lex ++ [Q]) with ((Q :: lex) ++ [Q]). rewrite app_assoc, hd_rev_last. split; reflexivity.
   - exists (ascii_of_nat 62). rewrite typed_token_shape, !app_assoc, hd_rev_last. split; reflexivity.
   - rewrite !andb_true_iff in H. destruct H as [[_ H2] _].
-    change (Q :: lex ++ Q :: Str "@" ++ tag) with ((Q :: lex) ++ [Q; AT] ++ tag).
+    change (Q :: lex ++ Q :: Str "@" ++ tag) with ((Q :: lex) ++ [Q; ATSIGN] ++ tag).
     rewrite !app_assoc.
-    apply (last_nonspace _ tag AT); [|reflexivity | exact H2].
-    change [Q; AT] with ([Q] ++ [AT]). rewrite !app_assoc. apply hd_rev_last.
+    apply (last_nonspace _ tag ATSIGN); [|reflexivity | exact H2].
+    change [Q; ATSIGN] with ([Q] ++ [ATSIGN]). rewrite !app_assoc. apply hd_rev_last.
 Qed.
 
 Section TsvTheorem.
@@ -1056,3 +1056,483 @@ Section TsvTheorem.
     cbn [negb]. rewrite (IH Hg). reflexivity.
   Qed.
 End TsvTheorem.
+
+(** ** F. the dispatch *)
+
+Lemma zeqb_single n : Z.eqb (Z.of_nat n) c08_zip_single_archives = Nat.eqb n 1.
+Proof.
+  unfold c08_zip_single_archives. destruct (Nat.eqb_spec n 1) as [->|H]; [reflexivity|].
+  apply Z.eqb_neq. lia.
+Qed.
+
+Ltac dispatch_case :=
+  lazymatch goal with
+  | |- exists d, dispatch ?f ?c (KFiles (S (S ?n))) = _ /\ _ =>
+    unfold dispatch; cbn -[Z.eqb Z.of_nat Nat.eqb]; unfold resolve_target; cbn -[Z.eqb Z.of_nat Nat.eqb];
+    try rewrite zeqb_single; cbn -[Z.eqb Z.of_nat];
+    eexists; split; reflexivity
+  | |- _ => eexists; split; reflexivity
+  end.
+
+Theorem dispatch_total fmt cm k :
+  accepted fmt cm k -> dispatch_dom fmt cm k = true ->
+  exists d, dispatch fmt cm k = inl d /\ class_name d = expected_class fmt cm k.
+Proof.
+  intros (Hf & Hc & Hu) Hd.
+  unfold documented_formats in Hf. unfold documented_compressions in Hc. cbn [In] in Hf, Hc.
+  destruct Hc as [<-|[<-|[<-|[<-|[]]]]];
+    destruct Hf as [<-|[<-|[<-|[<-|[<-|[<-|[<-|[]]]]]]]];
+    destruct k as [|n| | |n|];
+    try (cbn in Hd; discriminate Hd);
+    try (specialize (Hu eq_refl); cbn in Hu; discriminate Hu);
+    try (destruct n as [|[|n]]);
+    dispatch_case.
+Qed.
+
+(** combinations the Shaper accepts that reach no yielder *)
+Lemma accepted_zip_raw : accepted (Str "nt") (Some (Str "zip")) KRaw.
+Proof. unfold accepted. cbn. tauto. Qed.
+
+Lemma accepted_url_tsv : accepted (Str "tsv_spo") None KUrl.
+Proof. unfold accepted. cbn. repeat split; auto; try (intros H; discriminate H). Qed.
+
+(** ** G. the two passes and blank-node labels *)
+
+Lemma rename_node_iri f n : is_bnode n = false -> rename_node f n = n.
+Proof. unfold is_bnode, rename_node. destruct n as [[|] i]; cbn; [reflexivity | discriminate]. Qed.
+
+Lemma rename_triple_typing f tau g t :
+  typing_iri tau g -> In t g -> str_eqb (tp t) tau = true -> rename_triple f t = t.
+Proof.
+  intros Ht Hin E. apply str_eqb_eq in E. destruct (Ht t Hin E) as [Hs Ho].
+  destruct t as [s p o]. unfold rename_triple. cbn [ts tp to] in *.
+  rewrite (rename_node_iri f s Hs). destruct o as [n|c d]; cbn [rename_obj]; [rewrite (rename_node_iri f n Ho)|]; reflexivity.
+Qed.
+
+Lemma typing_iri_tail tau t g : typing_iri tau (t :: g) -> typing_iri tau g.
+Proof. intros H x Hx. apply H. right. exact Hx. Qed.
+
+Lemma tp_rename f t : tp (rename_triple f t) = tp t.
+Proof. reflexivity. Qed.
+
+Lemma relevant_rename f tau m t :
+  (str_eqb (tp t) tau = true -> rename_triple f t = t) ->
+  relevant tau m (rename_triple f t) = relevant tau m t.
+Proof.
+  intros H. unfold relevant. rewrite tp_rename. destruct (str_eqb (tp t) tau) eqn:E; [|reflexivity].
+  rewrite (H eq_refl). reflexivity.
+Qed.
+
+Lemma track_plain_rename f tau m g d :
+  typing_iri tau g -> track_plain tau m (rename f g) d = track_plain tau m g d.
+Proof.
+  revert d. induction g as [|t g IH]; intros d Ht; [reflexivity|].
+  cbn [rename map track_plain]. fold (rename f g).
+  assert (Hfix : str_eqb (tp t) tau = true -> rename_triple f t = t)
+    by (apply (rename_triple_typing f tau (t :: g)); [exact Ht | left; reflexivity]).
+  rewrite (relevant_rename f tau m t Hfix).
+  destruct (relevant tau m t) eqn:R.
+  - assert (rename_triple f t = t) as ->.
+    { apply Hfix. unfold relevant in R. apply andb_true_iff in R. tauto. }
+    destruct (annotate d t); [apply IH; apply (typing_iri_tail tau t g Ht) | reflexivity].
+  - apply IH. apply (typing_iri_tail tau t g Ht).
+Qed.
+
+Lemma cap_allows_rename f tau cap st t :
+  (str_eqb (tp t) tau = true -> rename_triple f t = t) ->
+  cap_allows tau cap st (rename_triple f t) = cap_allows tau cap st t.
+Proof.
+  intros H. unfold cap_allows. rewrite tp_rename. destruct (str_eqb (tp t) tau) eqn:E; [|reflexivity].
+  rewrite (H eq_refl). reflexivity.
+Qed.
+
+Lemma track_cap_rename f tau m cap nt g d st :
+  typing_iri tau g -> track_cap tau m cap nt (rename f g) d st = track_cap tau m cap nt g d st.
+Proof.
+  revert d st. induction g as [|t g IH]; intros d st Ht; [reflexivity|].
+  cbn [rename map track_cap]. fold (rename f g).
+  assert (Hfix : str_eqb (tp t) tau = true -> rename_triple f t = t)
+    by (apply (rename_triple_typing f tau (t :: g)); [exact Ht | left; reflexivity]).
+  pose proof (typing_iri_tail tau t g Ht) as Ht'.
+  rewrite (cap_allows_rename f tau cap st t Hfix), (relevant_rename f tau m t Hfix).
+  destruct (cap_allows tau cap st t) as [[|]|]; [|apply IH; exact Ht' | reflexivity].
+  destruct (relevant tau m t) eqn:R; [|apply IH; exact Ht'].
+  assert (rename_triple f t = t) as ->.
+  { apply Hfix. unfold relevant in R. apply andb_true_iff in R. tauto. }
+  destruct (to t); [|reflexivity].
+  destruct nt as [k|]; [destruct (Nat.eqb _ k); [reflexivity|]|]; apply IH; exact Ht'.
+Qed.
+
+Theorem track_rename f tau m cap g :
+  typing_iri tau g -> track tau m cap (rename f g) = track tau m cap g.
+Proof.
+  intros Ht. unfold track. destruct (cap <=? 0)%Z.
+  - apply track_plain_rename. exact Ht.
+  - apply track_cap_rename. exact Ht.
+Qed.
+
+(** dictionaries *)
+Lemma dget_dset {V} (d : dict V) k v k' :
+  dget (dset d k v) k' = if str_eqb k' k then Some v else dget d k'.
+Proof.
+  induction d as [|[k0 v0] d IH]; cbn [dset dget].
+  - reflexivity.
+  - destruct (str_eqb k k0) eqn:E; cbn [dget].
+    + apply str_eqb_eq in E. subst k0. destruct (str_eqb k' k); reflexivity.
+    + rewrite IH. destruct (str_eqb k' k0) eqn:E0; [|reflexivity].
+      destruct (str_eqb k' k) eqn:E1; [|reflexivity].
+      apply str_eqb_eq in E0, E1. subst. rewrite str_eqb_refl in E. discriminate.
+Qed.
+
+Lemma dmem_dupd {V} (d : dict V) k dflt g k' : dmem (dupd d k dflt g) k' = str_eqb k' k || dmem d k'.
+Proof.
+  unfold dupd, dmem. destruct (dget d k); rewrite dget_dset; destruct (str_eqb k' k); reflexivity.
+Qed.
+
+Lemma dmem_dupd_tracked {V} (d : dict V) k dflt g k' :
+  dmem d k = true -> dmem (dupd d k dflt g) k' = dmem d k'.
+Proof.
+  intros H. rewrite dmem_dupd. destruct (str_eqb k' k) eqn:E; [|reflexivity].
+  apply str_eqb_eq in E. subst. rewrite H. reflexivity.
+Qed.
+
+Lemma shapes_of_untracked I k : dmem I k = false -> shapes_of I k = [].
+Proof. unfold dmem, shapes_of. destruct (dget I k); [discriminate | reflexivity]. Qed.
+
+Lemma annotate_subject_keys tau I t I' :
+  dmem I (nid (ts t)) = true -> annotate_subject tau I t = inl I' -> forall k, dmem I' k = dmem I k.
+Proof.
+  intros Ht H k. unfold annotate_subject in H. destruct (type_of_obj tau (tp t) (to t)); [|discriminate].
+  inversion H; subst. apply dmem_dupd_tracked. exact Ht.
+Qed.
+
+Lemma annotate_triple_keys tau inv I t I' :
+  annotate_triple tau inv I t = inl I' -> forall k, dmem I' k = dmem I k.
+Proof.
+  unfold annotate_triple, tracked. intros H k.
+  destruct (dmem I (nid (ts t))) eqn:Es.
+  - destruct (annotate_subject tau I t) as [I1|e] eqn:E1; [|discriminate].
+    pose proof (annotate_subject_keys tau I t I1 Es E1) as K1.
+    destruct inv; [|inversion H; subst; apply K1].
+    destruct (to t) as [o|c d]; [|inversion H; subst; apply K1].
+    destruct (dmem I1 (nid o)) eqn:Eo; inversion H; subst; [|apply K1].
+    unfold annotate_object. rewrite dmem_dupd_tracked by exact Eo. apply K1.
+  - destruct inv; [|inversion H; subst; reflexivity].
+    destruct (to t) as [o|c d]; [|inversion H; subst; reflexivity].
+    destruct (dmem I (nid o)) eqn:Eo; inversion H; subst; [|reflexivity].
+    unfold annotate_object. apply dmem_dupd_tracked. exact Eo.
+Qed.
+
+Lemma elem_type_rename f n : elem_type_node (rename_node f n) = elem_type_node n.
+Proof. destruct n as [[|] i]; reflexivity. Qed.
+
+Lemma annotate_object_rename f tau I t o :
+  str_eqb (tp t) tau = false -> annotate_object tau I (rename_triple f t) o = annotate_object tau I t o.
+Proof.
+  intros E. unfold annotate_object, type_of_subj. rewrite tp_rename, E. cbn [negb].
+  destruct t as [[[|] sid] p ob]; cbn [rename_triple ts tp rename_node nk nid elem_type_node]; reflexivity.
+Qed.
+
+Definition untracked_node (I : idict) (f : str -> str) (n : node) : Prop :=
+  is_bnode n = true -> dmem I (nid n) = false /\ dmem I (f (nid n)) = false.
+
+Lemma annotate_subject_rename f tau I t :
+  str_eqb (tp t) tau = false -> is_bnode (ts t) = false ->
+  (forall n, to t = ON n -> untracked_node I f n) ->
+  annotate_subject tau I (rename_triple f t) = annotate_subject tau I t.
+Proof.
+  intros E Hs Ho. unfold annotate_subject, type_of_obj. rewrite tp_rename, E. cbn [negb].
+  destruct t as [s p ob]. cbn [rename_triple ts tp to] in *. rewrite (rename_node_iri f s Hs).
+  destruct ob as [[[|] oid]|c d]; cbn [rename_obj rename_node nk nid elem_type_node]; try reflexivity.
+  destruct (Ho _ eq_refl eq_refl) as [H1 H2]. cbn [nid] in H1, H2.
+  rewrite (shapes_of_untracked I _ H1), (shapes_of_untracked I _ H2). reflexivity.
+Qed.
+
+Lemma annotate_triple_rename f tau inv I t :
+  (str_eqb (tp t) tau = true -> rename_triple f t = t) ->
+  untracked_node I f (ts t) ->
+  (forall n, to t = ON n -> untracked_node I f n) ->
+  annotate_triple tau inv I (rename_triple f t) = annotate_triple tau inv I t.
+Proof.
+  intros Hfix Hs Ho. destruct (str_eqb (tp t) tau) eqn:E; [rewrite (Hfix eq_refl); reflexivity|].
+  unfold annotate_triple, tracked.
+  assert (Hr1 : (if dmem I (nid (ts (rename_triple f t))) then annotate_subject tau I (rename_triple f t) else inl I)
+                = (if dmem I (nid (ts t)) then annotate_subject tau I t else inl I)).
+  { destruct (is_bnode (ts t)) eqn:B.
+    - destruct (Hs B) as [H1 H2]. destruct t as [[[|] sid] p ob]; [discriminate B|].
+      cbn [rename_triple ts rename_node nk nid] in *. rewrite H1, H2. reflexivity.
+    - rewrite (annotate_subject_rename f tau I t E B Ho).
+      destruct t as [s p ob]. cbn [rename_triple ts] in *. rewrite (rename_node_iri f s B). reflexivity. }
+  rewrite Hr1. clear Hr1.
+  destruct (if dmem I (nid (ts t)) then annotate_subject tau I t else inl I) as [I1|e] eqn:E1; [|reflexivity].
+  destruct inv; [|reflexivity].
+  assert (K : forall k, dmem I1 k = dmem I k).
+  { destruct (dmem I (nid (ts t))) eqn:Es; [apply (annotate_subject_keys tau I t I1 Es E1) | inversion E1; reflexivity]. }
+  destruct t as [s p [[[|] oid]|c d]]; cbn [rename_triple to rename_obj rename_node nk nid] in *.
+  - rewrite (annotate_object_rename f tau I1 (T s p (ON (Node KIri oid))) (Node KIri oid) E). reflexivity.
+  - destruct (Ho _ eq_refl eq_refl) as [H1 H2]. cbn [nid] in H1, H2. rewrite !K, H1, H2. reflexivity.
+  - reflexivity.
+Qed.
+
+Definition untracked (I : idict) (f : str -> str) (g : graph) : Prop :=
+  forall b, In b (bnode_ids g) -> dmem I b = false /\ dmem I (f b) = false.
+
+Lemma untracked_head I f t g : untracked I f (t :: g) ->
+  untracked_node I f (ts t) /\ (forall n, to t = ON n -> untracked_node I f n) /\ untracked I f g.
+Proof.
+  intros H. unfold untracked in H. cbn [bnode_ids flat_map] in H. fold (bnode_ids g) in H. split; [|split].
+  - intros B. apply H. rewrite B. cbn [app]. left. reflexivity.
+  - intros n En B. apply H. rewrite En, B. apply in_or_app. left. apply in_or_app. right. left. reflexivity.
+  - intros b Hb. apply H. apply in_or_app. right. exact Hb.
+Qed.
+
+Lemma annotate_all_rename f tau inv g I :
+  typing_iri tau g -> untracked I f g ->
+  annotate_all tau inv (rename f g) I = annotate_all tau inv g I.
+Proof.
+  revert I. induction g as [|t g IH]; intros I Ht Hu; [reflexivity|].
+  cbn [rename map annotate_all]. fold (rename f g).
+  destruct (untracked_head I f t g Hu) as (Hs & Ho & Hg).
+  rewrite (annotate_triple_rename f tau inv I t); [| | exact Hs | exact Ho].
+  - destruct (annotate_triple tau inv I t) as [I'|e] eqn:E; [|reflexivity].
+    apply IH; [apply (typing_iri_tail tau t g Ht)|].
+    intros b Hb. rewrite !(annotate_triple_keys tau inv I t I' E). apply Hg. exact Hb.
+  - apply (rename_triple_typing f tau (t :: g)); [exact Ht | left; reflexivity].
+Qed.
+
+Lemma dmem_adapt I k : dmem (adapt I) k = dmem I k.
+Proof.
+  unfold dmem. induction I as [|[k0 v0] I IH]; [reflexivity|]. cbn [adapt map dget fst snd].
+  destruct (str_eqb k k0); [reflexivity|]. exact IH.
+Qed.
+
+Theorem profile_rename f c I g :
+  typing_iri (p_tau c) g ->
+  (forall b, In b (bnode_ids g) -> dmem I b = false /\ dmem I (f b) = false) ->
+  profile c I (rename f g) = profile c I g.
+Proof.
+  intros Ht Hu. unfold profile. rewrite annotate_all_rename; [reflexivity | exact Ht |].
+  intros b Hb. rewrite !dmem_adapt. apply Hu. exact Hb.
+Qed.
+
+(** the feature pass never adds or removes an instance: it can only attach
+    features to the node ids recorded by the instance pass *)
+Lemma annotate_triple_dkeys tau inv I t I' : annotate_triple tau inv I t = inl I' -> dkeys I' = dkeys I.
+Proof.
+  assert (Hset : forall (d : idict) k v, dmem d k = true -> dkeys (dset d k v) = dkeys d).
+  { intros d k v. unfold dmem. induction d as [|[k0 v0] d IHd]; cbn [dget dset]; [discriminate|].
+    destruct (str_eqb k k0) eqn:E; [reflexivity|]. intros H. unfold dkeys in *. cbn [map fst]. rewrite IHd by exact H. reflexivity. }
+  assert (Hupd : forall (d : idict) k dflt g, dmem d k = true -> dkeys (dupd d k dflt g) = dkeys d).
+  { intros d k dflt g H. unfold dupd. destruct (dget d k); apply Hset; exact H. }
+  unfold annotate_triple, tracked. intros H.
+  destruct (dmem I (nid (ts t))) eqn:Es.
+  - destruct (annotate_subject tau I t) as [I1|e] eqn:E1; [|discriminate].
+    assert (K1 : dkeys I1 = dkeys I).
+    { unfold annotate_subject in E1. destruct (type_of_obj tau (tp t) (to t)); [|discriminate].
+      inversion E1; subst. apply Hupd. exact Es. }
+    destruct inv; [|inversion H; subst; exact K1].
+    destruct (to t) as [o|c d]; [|inversion H; subst; exact K1].
+    destruct (dmem I1 (nid o)) eqn:Eo; inversion H; subst; [|exact K1].
+    unfold annotate_object. rewrite Hupd by exact Eo. exact K1.
+  - destruct inv; [|inversion H; subst; reflexivity].
+    destruct (to t) as [o|c d]; [|inversion H; subst; reflexivity].
+    destruct (dmem I (nid o)) eqn:Eo; inversion H; subst; [|reflexivity].
+    unfold annotate_object. apply Hupd. exact Eo.
+Qed.
+
+Lemma annotate_all_dkeys tau inv g I I' : annotate_all tau inv g I = inl I' -> dkeys I' = dkeys I.
+Proof.
+  revert I. induction g as [|t g IH]; intros I H; cbn [annotate_all] in H; [inversion H; reflexivity|].
+  destruct (annotate_triple tau inv I t) as [I1|e] eqn:E; [|discriminate].
+  rewrite (IH _ H). apply (annotate_triple_dkeys tau inv I t I1 E).
+Qed.
+
+Theorem profile_same_ids c I g P C ID : profile c I g = inl (P, C, ID) -> dkeys ID = dkeys I.
+Proof.
+  unfold profile. destruct (init_annotated I _) as [P0 C0].
+  destruct (annotate_all (p_tau c) (p_inverse c) g (adapt I)) as [ID'|e] eqn:E; [|discriminate].
+  assert (K : dkeys ID' = dkeys I).
+  { rewrite (annotate_all_dkeys _ _ _ _ _ E). unfold dkeys, adapt. rewrite map_map. reflexivity. }
+  destruct (p_remove_empty c).
+  - destruct (clean_profile _ _ _ _); [|discriminate]. intros H. inversion H; subst. exact K.
+  - intros H. inversion H; subst. exact K.
+Qed.
+
+(** ** H. the pipeline over the two passes *)
+
+From Shexer Require Import Model.Freq Model.Run.
+
+Section Run2Proofs.
+  Variable fa : FreqAlg.
+
+  (** when both passes deliver the same list the two-pass pipeline is [Run.run_shapes] *)
+  Lemma run_shapes2_same c thr g : run_shapes2 fa c thr g g = run_shapes fa c thr g.
+  Proof. reflexivity. Qed.
+
+  Definition tmode_of (c : rcfg) : tmode := match r_targets c with Some l => TClasses l | None => TAll end.
+
+  (** *** C08(b), rdflib channels: when no blank node takes part in a typing
+      triple and no blank-node label (before or after renaming) is an instance
+      id, the shapes do not depend on the two renamings at all *)
+  Theorem renamings_invisible c thr g1 g2 f1 f2 :
+    typing_iri (r_tau c) g1 -> typing_iri (r_tau c) g2 ->
+    (forall ins b, track (r_tau c) (tmode_of c) (r_cap c) g1 = inl ins ->
+                   In b (bnode_ids g2) -> dmem ins b = false /\ dmem ins (f2 b) = false) ->
+    run_shapes2 fa c thr (rename f1 g1) (rename f2 g2) = run_shapes2 fa c thr g1 g2.
+  Proof.
+    intros H1 H2 Hu. unfold run_shapes2. destruct (full_ns c) as [ns|]; [|reflexivity].
+    rewrite (track_rename f1 (r_tau c) _ (r_cap c) g1 H1). fold (tmode_of c).
+    destruct (track (r_tau c) (tmode_of c) (r_cap c) g1) as [ins|e] eqn:E; [|reflexivity].
+    rewrite (profile_rename f2 (pcfg_of c) ins g2 H2 (fun b Hb => Hu ins b eq_refl Hb)). reflexivity.
+  Qed.
+End Run2Proofs.
+
+(** line-based channels and the rdflib Graph object iterated with the same
+    choices: both passes deliver the same stream *)
+Lemma passes_same pyfloat read_nt read_ttl gunzip unxz unzip rdf_parse o fmt cm src :
+  let p := passes pyfloat read_nt read_ttl gunzip unxz unzip rdf_parse o o fmt cm src in fst p = snd p.
+Proof. reflexivity. Qed.
+
+(** a line-based single-document yielder never consults rdflib's oracle *)
+Lemma single_line_oracle_free pyfloat read_nt read_ttl gunzip unxz rdf_parse o o' fmt read raw cm st :
+  line_family pyfloat read_nt fmt read ->
+  single pyfloat read_nt read_ttl gunzip unxz rdf_parse o fmt (fst (family fmt)) raw cm st
+  = single pyfloat read_nt read_ttl gunzip unxz rdf_parse o' fmt (fst (family fmt)) raw cm st.
+Proof. intros []; reflexivity. Qed.
+
+(** ** I. line-based channels never consult rdflib: whatever rdflib would do
+    on the two passes, both passes deliver the same stream *)
+
+Definition line_fmt (fmt : str) : Prop :=
+  fmt = Str "nt" \/ fmt = Str "tsv_spo" \/ fmt = Str "turtle_iter".
+
+Definition local_source (s : source) : Prop :=
+  match s with SRaw _ | SFile _ | SFiles _ => True | _ => False end.
+
+Definition single_cls (c : str) : Prop :=
+  c = Str "NtTriplesYielder" \/ c = Str "TsvNtTriplesYielder" \/ c = Str "BigTtlTriplesYielder".
+
+Definition multi_cls (c : str) : Prop :=
+  c = Str "MultiNtTriplesYielder" \/ c = Str "MultiTsvNtTriplesYielder" \/ c = Str "MultiBigTtlTriplesYielder".
+
+Definition line_desc (d : ydesc) : Prop :=
+  match d with
+  | YPlain c => single_cls c \/ multi_cls c
+  | YZipOne c => multi_cls c
+  | YZipMany _ c => multi_cls c
+  end.
+
+Section OracleFree.
+  Variable pyfloat : str -> option bool.
+  Variable read_nt read_ttl : list str -> rd.
+  Variable gunzip unxz : str -> option str.
+  Variable unzip : str -> option (list (str * str)).
+  Variable rdf_parse : str -> str -> option (list rtriple).
+
+  Notation single1 := (single pyfloat read_nt read_ttl gunzip unxz rdf_parse).
+  Notation multi_from1 := (multi_from pyfloat read_nt read_ttl gunzip unxz rdf_parse).
+  Notation multi1 := (multi pyfloat read_nt read_ttl gunzip unxz rdf_parse).
+  Notation zip_one1 := (zip_one pyfloat read_nt read_ttl gunzip unxz unzip rdf_parse).
+  Notation zip_many1 := (zip_many pyfloat read_nt read_ttl gunzip unxz unzip rdf_parse).
+  Notation run_yielder1 := (run_yielder pyfloat read_nt read_ttl gunzip unxz unzip rdf_parse).
+  Notation chan := (channel pyfloat read_nt read_ttl gunzip unxz unzip rdf_parse).
+
+  Lemma single_free o o' fmt cls raw cm st : single_cls cls -> single1 o fmt cls raw cm st = single1 o' fmt cls raw cm st.
+  Proof. intros [-> | [-> | ->]]; reflexivity. Qed.
+
+  Lemma multi_from_free i orcs orcs' fmt cls cm files :
+    single_cls cls -> multi_from1 i orcs fmt cls cm files = multi_from1 i orcs' fmt cls cm files.
+  Proof.
+    intros H. revert i. induction files as [|f fs IH]; intros i; [reflexivity|].
+    cbn [multi_from]. rewrite (single_free (orcs i) (orcs' i) fmt cls false cm f H), IH. reflexivity.
+  Qed.
+
+  Lemma multi_free orcs orcs' fmt cls cm files : multi_cls cls -> multi1 orcs fmt cls cm files = multi1 orcs' fmt cls cm files.
+  Proof.
+    intros [-> | [-> | ->]]; unfold multi; cbn [dict_get]; apply multi_from_free; unfold single_cls; tauto.
+  Qed.
+
+  Lemma zip_one_free orcs orcs' fmt cls a : multi_cls cls -> zip_one1 orcs fmt cls a = zip_one1 orcs' fmt cls a.
+  Proof. intros H. unfold zip_one. destruct (unzip a); [apply multi_free; exact H | reflexivity]. Qed.
+
+  Lemma zip_many_free (o o' : porc) fmt cls archives : multi_cls cls -> zip_many1 o fmt cls archives = zip_many1 o' fmt cls archives.
+  Proof.
+    intros H. unfold zip_many.
+    assert (map (fun ia : nat * str => zip_one1 (o (fst ia)) fmt cls (snd ia)) (combine (seq 0 (List.length archives)) archives)
+            = map (fun ia : nat * str => zip_one1 (o' (fst ia)) fmt cls (snd ia)) (combine (seq 0 (List.length archives)) archives)) as ->
+        by (apply map_ext; intros ia; apply zip_one_free; exact H).
+    reflexivity.
+  Qed.
+
+  Lemma run_yielder_free (o o' : porc) fmt cm src d :
+    line_desc d -> local_source src -> run_yielder1 o fmt cm src d = run_yielder1 o' fmt cm src d.
+  Proof.
+    destruct d as [c|c|w c]; cbn [line_desc]; intros Hd Hs.
+    - destruct Hd as [Hc|Hc].
+      + destruct Hc as [-> | [-> | ->]]; destruct src; try contradiction; cbn [run_yielder]; cbn [dict_get];
+          try reflexivity.
+      + pose proof Hc as Hc'. destruct Hc as [-> | [-> | ->]]; destruct src; try contradiction; cbn [run_yielder]; cbn [dict_get];
+          try reflexivity; apply multi_free; exact Hc'.
+    - destruct src as [| a | [|a [|b l]] | | |]; try contradiction; cbn [run_yielder]; try reflexivity;
+        apply zip_one_free; exact Hd.
+    - destruct src; try contradiction; cbn [run_yielder]; try reflexivity. apply zip_many_free. exact Hd.
+  Qed.
+
+  Ltac line_dispatch_case :=
+    lazymatch goal with
+    | |- match dispatch ?f ?c (KFiles (S (S ?n))) with _ => _ end =>
+      unfold dispatch; cbn -[Z.eqb Z.of_nat Nat.eqb]; unfold resolve_target; cbn -[Z.eqb Z.of_nat Nat.eqb];
+      try rewrite zeqb_single; cbn -[Z.eqb Z.of_nat]; unfold single_cls, multi_cls; tauto
+    | |- _ => cbn; unfold single_cls, multi_cls; tauto
+    end.
+
+  Lemma dispatch_line_shape fmt cm k :
+    line_fmt fmt -> In cm documented_compressions ->
+    match k with KFile | KFiles _ | KRaw => True | _ => False end ->
+    match dispatch fmt cm k with inl d => line_desc d | inr _ => True end.
+  Proof.
+    intros Hf Hc Hk. unfold documented_compressions in Hc. cbn [In] in Hc.
+    destruct Hf as [-> | [-> | ->]]; destruct Hc as [<-|[<-|[<-|[<-|[]]]]];
+      destruct k as [|n| | |n|]; try contradiction; try (destruct n as [|[|n]]); line_dispatch_case.
+  Qed.
+
+  (** *** C08(b), line-based channels *)
+  Theorem line_channels_oracle_free (o1 o2 : porc) fmt cm src :
+    line_fmt fmt -> In cm documented_compressions -> local_source src ->
+    chan o1 fmt cm src = chan o2 fmt cm src.
+  Proof.
+    intros Hf Hc Hs. unfold channel.
+    pose proof (dispatch_line_shape fmt cm (kind_of src) Hf Hc) as Hd.
+    destruct (dispatch fmt cm (kind_of src)) as [d|e]; [|reflexivity].
+    apply run_yielder_free; [|exact Hs]. apply Hd. destruct src; try contradiction; exact I.
+  Qed.
+End OracleFree.
+
+(** ** J. corollaries and decision procedures used by the non-vacuity examples *)
+
+Definition line_okb (l : str) : bool :=
+  no_char LF l && no_char CR l &&
+  match decode_strict l with Some r => str_eqb r l | None => false end.
+
+Lemma line_okb_ok l : line_okb l = true -> line_ok l.
+Proof.
+  unfold line_okb, line_ok. rewrite !andb_true_iff. intros [[H1 H2] H3]. repeat split.
+  - apply no_char_not_in. exact H1.
+  - apply no_char_not_in. exact H2.
+  - destruct (decode_strict l) as [r|]; [|discriminate]. apply str_eqb_eq in H3. subst. reflexivity.
+Qed.
+
+Lemma lines_okb_ok ls : forallb line_okb ls = true -> Forall line_ok ls.
+Proof. rewrite forallb_forall, Forall_forall. intros H l Hl. apply line_okb_ok, H, Hl. Qed.
+
+(** the raw TSV string of a graph in the domain delivers its N-Triples semantics *)
+Theorem tsv_channel_kinded pyfloat read_nt read_ttl gunzip unxz unzip rdf_parse o g :
+  tsv_dom g = true -> Forall line_ok (map tsv_line_of g) ->
+  rd_stream (channel pyfloat read_nt read_ttl gunzip unxz unzip rdf_parse o (Str "tsv_spo") None (SRaw (tsv_doc g)))
+  = inl (map m_of g)
+  /\ graph_of_m (map m_of g) = Some (kinded g).
+Proof.
+  intros Hd Hok. destruct (tsv_reads_nt_semantics pyfloat g Hd) as [H1 H2]. split; [|exact H2].
+  rewrite (chan_raw pyfloat read_nt read_ttl gunzip unxz unzip rdf_parse o _ _ _ (Fam_tsv pyfloat read_nt)).
+  unfold tsv_doc. rewrite lines_raw_render by exact Hok. rewrite (tsv_lines_nonblank g Hd), H1. reflexivity.
+Qed.
